@@ -241,8 +241,37 @@ def judge_program(prog_fn, what, do_rename, rng):
     return out
 
 
+def named_cases():
+    P = A.pr
+    loud = lambda: A.FuncE([V("v")], False, [A.ExprStmt(A.call("say", A.Bin("+", S("shadow:"), V("v")))), A.Return(A.Null())])
+    return {
+        "print_shadowed_by_parameter": [A.Declare(V("say"), V("print")), A.FuncStmt("f", [V("print")], False, [A.ExprStmt(A.call("print", S("a"))), A.Return(V("print"))]),
+                                        A.Declare(V("g"), A.call("f", loud())), A.ExprStmt(A.call("g", S("b"))), P(S("plain"))],
+        "print_shadowed_in_block": [A.Declare(V("say"), V("print")), A.Block([A.Declare(V("print"), loud()), A.ExprStmt(A.call("print", S("in"))),
+                                                                             A.FuncStmt("h", [], False, [A.ExprStmt(A.call("print", S("closure")))]), A.ExprStmt(A.call("h"))]), P(S("out"))],
+        "print_captured_then_shadowed": [A.FuncStmt("k", [], False, [P(S("global print"))]), A.Block([A.Declare(V("print"), A.FuncE([V("v")], False, [])), A.ExprStmt(A.call("k"))])],
+        "alias_of_print": [A.Declare(V("p2"), V("print")), A.ExprStmt(A.call("p2", S("via alias"))), A.FuncStmt("use", [V("f")], False, [A.ExprStmt(A.call("f", S("via arg")))]), A.ExprStmt(A.call("use", V("print")))],
+        "fn_shadows_outer_fn": [A.FuncStmt("d", [], False, [A.Return(S("outer"))]), A.Block([A.FuncStmt("d", [], False, [A.Return(S("inner"))]), P(A.call("d"))]), P(A.call("d")),
+                                A.FuncStmt("m", [], False, [A.FuncStmt("d", [], False, [A.Return(S("local"))]), A.Return(A.call("d"))]), P(A.call("m")), P(A.call("d"))],
+        "while_iteration_closures": [A.Declare(V("fs"), A.lst()), A.Declare(V("i"), I(0)),
+                                     A.While(A.Bin("<", V("i"), I(3)), [A.Declare(V("loc"), A.Bin("*", V("i"), I(10))), A.OpAssign("+", V("i"), I(1)),
+                                                                       A.OpAssign("+", V("fs"), A.lst(A.FuncE([], False, [A.OpAssign("+", V("loc"), I(1)), A.Return(V("loc"))])))]),
+                                     A.For(A.lst(V("_"), V("f")), V("fs"), [P(A.call("f")), P(A.call("f"))])],
+        "middle_scope_shadow": [A.Declare(V("x"), I(1)), A.FuncStmt("top", [V("x")], False, [
+                                    A.If([(A.Bool(True), [P(V("x")), A.For(V("_"), A.lst(I(0)), [P(V("x")), A.Block([P(V("x")), A.Assign(V("x"), A.Bin("+", V("x"), I(1)))])])])], None),
+                                    A.Return(V("x"))]), P(A.call("top", I(50))), P(V("x")),
+                                A.Block([A.Declare(V("x"), I(2)), A.Block([P(V("x")), A.FuncStmt("rd", [], False, [A.Return(V("x"))]), A.Block([P(A.call("rd"))])])])],
+        "empty_function_scope": [A.Declare(V("x"), I(1)), A.FuncStmt("outer", [], False, [A.FuncStmt("inner", [], False, [A.Declare(V("x"), I(2)), A.Return(V("x"))]), A.Return(A.call("inner"))]),
+                                 P(A.call("outer")), P(V("x")), A.Block([A.Block([A.Declare(V("x"), I(3)), P(V("x"))]), P(V("x"))])],
+    }
+
+
 def work(arg):
     kind = arg[0]
+    if kind == "named":
+        res = judge_program(lambda: named_cases()[arg[1]], "named case " + arg[1], True, random.Random(1))
+        res["tag"] = "named"
+        return res
     rng = random.Random(arg[1] if kind != "seq" else int(core.sha(repr(arg[1]))[:8], 16))
     if kind == "seq":
         seq = arg[1]
@@ -273,6 +302,8 @@ def run(rep, tier):
         jobs.append(("seq", seq, True))
     for _ in range(2500 if tier == "quick" else 50000):
         jobs.append(("progen", rng.randrange(1 << 40)))
+    for name in named_cases():
+        jobs.append(("named", name))
     rng.shuffle(jobs)
     events = {}
     renamed = 0
